@@ -399,6 +399,21 @@ def r6(ctx, rep):
     rep.check(n_sites >= 6, "sites", f"expected >= 6 `Reason::Expected {{ found: .. }}` errors with a span in the semantic stage, found {n_sites}")
 
 
+def r7(ctx, rep):
+    rep.rule("C13.R7", "a span that names no file of the source tree (an expression of std.prql) does not leave the compiler", floor=1)
+    syn = ctx.syn
+    f = syn.fn("ErrorMessages::composed", crate="prqlc")
+    # role anchor: the lookup of the span's source id in `sources.source_ids`; its failing branch must clear the span
+    ok = False
+    for n in walk(f["body"]):
+        if n.get("k") == "local" and n.get("else") is not None and "source_ids" in show(n.get("init"), maxdepth=8) and ".get(" in show(n.get("init"), maxdepth=8):
+            ok = any(x.get("k") == "assign" and show(x["lhs"]).endswith(".span") and show(x["rhs"]) == "None" for x in walk(n["else"]))
+        if n.get("k") == "match" and "source_ids" in show(n["e"], maxdepth=8):
+            ok = ok or any("None" in show(a["pat"]) and any(x.get("k") == "assign" and show(x["lhs"]).endswith(".span") and show(x["rhs"]) == "None" for x in walk(a["body"])) for a in n["arms"])
+    rep.check(ok, "foreign-span-cleared", "ErrorMessages::composed skips an error whose span has a source id that is not in the tree, but must also clear that span: `from e | sort -a` and "
+              "`from 5` returned spans such as `0:873-889` - offsets into std.prql, which the caller cannot resolve (no location, no display)", file=f["file"], line=f["l"], fn=f["path"])
+
+
 def run(ctx, rep):
-    for r in (r1, r3, r4, r5, r6):
+    for r in (r1, r3, r4, r5, r6, r7):
         rep.guard(r, ctx)
